@@ -65,3 +65,24 @@ func TestGvcAdapterStylingQuoteChunks(t *testing.T) {
 	}
 	fmt.Println("NOT-REPRODUCED styling quote prefix: same tokens for whole and one-byte reads")
 }
+
+// A line longer than bufio.Scanner's default token limit: the tokens must
+// still concatenate to the input.
+func TestGvcAdapterStylingLongLine(t *testing.T) {
+	for _, in := range []string{
+		strings.Repeat("a", 70000),
+		strings.Repeat("a", 70000) + "\n",
+		"> " + strings.Repeat("b", 140000) + "\nnext\n",
+	} {
+		d := styling.NewDecoder(strings.NewReader(in))
+		var got strings.Builder
+		for d.Next() {
+			tok := d.Token()
+			got.Write(tok.Data)
+		}
+		if got.String() != in {
+			fmt.Printf("REPRODUCED input of %d bytes: tokens concatenate to %d bytes (err=%v)\n", len(in), got.Len(), d.Err())
+			t.Fail()
+		}
+	}
+}
